@@ -22,7 +22,7 @@ RULE_TEXT = ('runs = deterministic sweep over defect classes (15) x every varian
              'process spawns in all five phases and a sandbox; distinct = (defect class, variant, phase, position '
              'class, mode/command).')
 REACH_PROBES = ['class_syntax', 'class_unknown_instruction', 'class_undefined_symbol', 'class_defined_later', 'class_self_reference',
-                'class_wrong_type', 'class_wrong_type_non_ascii_name', 'class_illegal_relativity', 'class_missing_home_file', 'class_missing_file_absolute_path', 'class_bad_integer',
+                'class_wrong_type', 'class_wrong_type_non_ascii_name', 'class_illegal_relativity', 'class_missing_home_file', 'class_wrong_kind_of_home_file', 'class_missing_file_absolute_path', 'class_bad_integer',
                 'class_bad_integer_expression', 'class_bad_regex', 'class_defect_inside_matcher_expression', 'class_act_syntax', 'class_act_defect', 'case_marked_as_expected_to_fail', 'class_unknown_instruction_in_second_included_file', 'defect_phase_partly_in_included_file', 'sections_redeclared_or_reordered',
                 'act_defect_command_line_actor', 'act_defect_file_actor', 'act_defect_source_actor', 'class_stub_validation',
                 'class_stub_symbols', 'class_suite_shared_instruction', 'class_none_symbol_cmd', 'last_line_of_cleanup', 'mode_normal', 'mode_keep',
@@ -34,7 +34,10 @@ ALLP = tuple(PHASES)
 # class -> [(variant text, phases it can be written in)]
 DEFECTS = {
     'syntax': [('cd a b', ALLP), ("file x.txt = 'unterminated", ALLP), ('env X', ALLP), ('def string', ALLP),
-               ('cd -rel', ALLP), ('file -rel-home hf.txt = "x"', ALLP)],
+               ('cd -rel', ALLP), ('file -rel-home hf.txt = "x"', ALLP),
+               # a here-document that is never closed (whatever follows it - the rest of the file - is no end marker)
+               ('file h.txt = <<NEVER_CLOSED\nfirst line of the text', ALLP),
+               ('file h.txt = <<NEVER_CLOSED\nfirst line\nNEVER_CLOSED and more', ALLP)],
     # removed after a thorough run: 'stdout -from' and 'exit-code' without operands continue on the following lines
     # ('stdout -from' + '% m-as' + 'run % x3' IS a valid instruction), i.e. they are not errors irrespective of what
     # follows - a false alarm of the catalogue, not a defect
@@ -73,6 +76,13 @@ DEFECTS = {
                           ('file f.txt = -contents-of -rel-home dangling.txt', ALLP),
                           ('copy -rel-act-home nofile.txt', ALLP), ('% p -existing-file -rel-act-home nofile.txt', ALLP),
                           ('run -rel-act-home nofile-exe', ALLP)],
+    # a name in a home directory that exists but is the wrong kind of file: a directory where a program / a text file is
+    # expected, a regular file where a directory is
+    'wrong_kind_of_home_file': [('run hp', ALLP), ('run -rel-home hp', ALLP), ('run hp/sub arg', ALLP),
+                                ('% p -existing-file hp', ALLP), ('% p -existing-dir existing.txt', ALLP),
+                                ('file f.txt = -contents-of -rel-home hp', ALLP),
+                                ('stdin = -contents-of hp', ('setup',)),
+                                ('file o.txt = -stdout-from hp', ALLP)],
     # a missing file named by an absolute path (literally, or through a path symbol with an absolute value): it does not
     # depend on the sandbox, and is checked before execution just like a missing file in a home directory
     'missing_file_absolute_path': [('copy /no/such/dir/file.txt', ALLP), ('run /no/such/dir/prog', ALLP),
@@ -108,12 +118,14 @@ ACT_DEFECTS = [
      {'undefined_symbol': [['% atc @[UNDEF]@'], ['@ UNDEF_PROG'], ['% atc "quoted @[UNDEF]@ text"'], ['$ atc @[UNDEF]@']],
       'defined_later': [['% atc @[LATER]@'], ['$ atc @[LATER]@']],
       'wrong_type': [['@ STRSYM'], ['% atc @[LMSYM]@']],
-      'missing_home_file': [['nofile-exe'], ['% atc -existing-file nofile.txt'], ['-python -existing-file nofile.py']]}),
+      'missing_home_file': [['nofile-exe'], ['% atc -existing-file nofile.txt'], ['-python -existing-file nofile.py']],
+      'wrong_kind_of_home_file': [['hp'], ['hp arg'], ['% atc -existing-file hp']]}),
     ('actor = file % atc', ['existing.txt ok-arg'],
      {'undefined_symbol': [['existing.txt @[UNDEF]@']],
       'defined_later': [['existing.txt @[LATER]@']],
       'wrong_type': [['existing.txt @[LMSYM]@']],
-      'missing_home_file': [['nofile.py']]}),
+      'missing_home_file': [['nofile.py']],
+      'wrong_kind_of_home_file': [['hp']]}),
     ('actor = source % atc', ['source text'],
      {'undefined_symbol': [['source text @[UNDEF]@'], ['line one', 'line two @[UNDEF]@ end']],
       'defined_later': [['source text @[LATER]@']],
@@ -279,7 +291,7 @@ def build(seed, tier, case, spec, g, sweep):
     if spec['cls'] == 'suite_shared_instruction':
         return {'format': 1, 'property': PROPERTY, 'engine': 'c03', 'run_seed': seed, 'tier': tier,
                 'knobs': {'mem_buff_size': g.choice([1, 8192])}, 'entry': 'cli', 'spec': spec, 'case': {}, 'control': {},
-                'procs': {'sp': {'exit': 0}}, 'faults': [], 'sweep': sweep, 'files': {'home/existing.txt': 'e'}}
+                'procs': {'sp': {'exit': 0}}, 'faults': [], 'sweep': sweep, 'files': {'home/existing.txt': 'e', 'home/hp/sub/keep.txt': 'k'}}
     control = copy.deepcopy(case)
     faults = []
     cls, ph = spec['cls'], spec['phase']
